@@ -453,6 +453,32 @@ def toFiltered (b : Block) (ids : List Bytes) : Filtered :=
     | none => acc) []
   ⟨b.blockHash, b.header, picked, b.txsProof, b.ids, b.idsProof, b.uch, b.eci⟩
 
+/-! ### The sequencer's gRPC service -/
+
+def insertId (x : Bytes) : List Bytes → List Bytes
+  | [] => [x]
+  | h :: rest => if bytesLt x h then x :: h :: rest else h :: insertId x rest
+
+/-- `all_rollup_ids.sort_unstable()` -/
+def sortIds : List Bytes → List Bytes
+  | [] => []
+  | x :: rest => insertId x (sortIds rest)
+
+/-- `SequencerService::get_filtered_sequencer_block`: all stored rollup ids, sorted; the stored
+    entries of the requested ids that are present, in request order (a repeated request repeats
+    the entry; the receiver's `IndexMap` collapses it). -/
+def grpcFiltered (b : Block) (req : List Bytes) : FilteredRaw :=
+  let allIds := sortIds b.ids
+  let present := req.filter fun id => allIds.contains id
+  { blockHash := b.blockHash
+    header := some b.header.toRaw
+    rollups := present.filterMap fun id => (b.rollups.find? fun r => r.id = id).map Rt.toRaw
+    txsProof := some (encodeProof b.txsProof)
+    allIds := allIds
+    idsProof := some (encodeProof b.idsProof)
+    uch := b.uch
+    eci := b.eci.map Eci.toRaw }
+
 /-! ### Celestia form -/
 
 structure MetaRaw where
